@@ -68,7 +68,7 @@ theorem merge_equiv (S : Schema) (s1 s2 m : Step) (d d1 d2 d' : Node)
   -- the original document is an element node, hence so are the results
   have hd : ∃ ty a mk k, d = .elem ty a mk k := by
     cases s1 <;> cases s2 <;> try (simp [Step.merge] at hm; done)
-    · exact fromReplace_elem S d d1 _ _ _ (apply_replace_from _ _ _ _ _ _ _ h1)
+    · exact fromReplace_isElem S d d1 _ _ _ (apply_replace_from _ _ _ _ _ _ _ h1)
     · exact apply_addMark_elem S d d1 _ _ _ h1
     · exact apply_removeMark_elem S d d1 _ _ _ h1
   obtain ⟨ty, a, mk, k, rfl⟩ := hd
